@@ -86,6 +86,7 @@ type world struct {
 	tmpls    []tmplCfg
 	postLogout string
 	endSession bool
+	actualRefresh *tokenAnswer // the answer the provider actually gave to the refresh grant of the current request
 	esQuery    url.Values // parameters the published end-session endpoint carries itself
 	otherRouter http.Handler // another middleware instance of the same process with templated headers of its own (not part of the model)
 	grace    int
@@ -371,10 +372,16 @@ func (w *world) mint(claimsMod func(M), expIn time.Duration, valid bool, blob in
 		}
 		cl["blob"] = string(b)
 	}
-	t.claims = cl
 	k := w.p.keys[rng.Intn(len(w.p.keys))]
 	t.key = k
 	t.raw = stdToken(k, cl)
+	if tail, ok := cl["__tail"].([][2]interface{}); ok { // (written after the sorted members; claims like any other to a decoder)
+		delete(cl, "__tail")
+		for _, p := range tail {
+			cl[p[0].(string)] = p[1]
+		}
+	}
+	t.claims = cl
 	if !valid {
 		parts := strings.Split(t.raw, ".")
 		sig, _ := b64.DecodeString(parts[2])
@@ -520,6 +527,7 @@ type reqSpec struct {
 	exchange  *tokenAnswer
 	refresh   *tokenAnswer
 	note      string
+	withhold  bool // the browser holds cookies but does not attach them to this request (Secure cookies on a plain-http request, SameSite on a cross-site one); it still takes over the Set-Cookie lines of the answer
 }
 
 var pRe = regexp.MustCompile(`(?s)<p>(.*?)</p>`)
@@ -648,7 +656,9 @@ func (w *world) prep(rs *reqSpec) (*http.Request, [][]string) {
 			}
 		}
 	}
-	j.addTo(r)
+	if !rs.withhold {
+		j.addTo(r)
+	}
 	if (T.prop == "C18" || T.prop == "C17" || T.prop == "C07") && w.step%4 == 1 {
 		// cookies the middleware never set under names that look like its chunk cookies (not part of the model: they are not
 		// session content); every line of the answer still has to meet the limits
@@ -669,11 +679,19 @@ func (w *world) do(rs reqSpec) M {
 	inst, d := w.insts[w.cur], w.downs[w.cur]
 	w.pendingAnswer = rs.exchange
 	w.actualExchange = nil
-	w.p.onRefresh = func(url.Values) tokenAnswer {
+	w.actualRefresh = nil
+	w.p.onRefresh = func(form url.Values) tokenAnswer {
+		a := tokenAnswer{kind: "neterr"}
 		if rs.refresh != nil {
-			return *rs.refresh
+			a = *rs.refresh
 		}
-		return tokenAnswer{kind: "neterr"}
+		// a conformant provider grants a refresh only for a refresh token it has issued
+		if a.kind == "ok" && !w.p.issued(form.Get("refresh_token")) {
+			a = tokenAnswer{kind: "invalid_grant", desc: "refresh token was not issued by this provider"}
+			T.stat("handler.refresh.unknown-token-refused")
+		}
+		w.actualRefresh = &a
+		return a
 	}
 	w.p.takeCalls()
 	before := d.calls
@@ -891,7 +909,11 @@ func (w *world) observe(rs reqSpec, r *http.Request, clientHdrs [][]string, rec 
 	if rs.xfHost != "" {
 		host = rs.xfHost
 	}
-	exA, rfA := ansJSON(w, actualExchange, calls, "exchange"), ansJSON(w, rs.refresh, calls, "refresh")
+	actualRefresh := rs.refresh
+	if w.actualRefresh != nil {
+		actualRefresh = w.actualRefresh
+	}
+	exA, rfA := ansJSON(w, actualExchange, calls, "exchange"), ansJSON(w, actualRefresh, calls, "refresh")
 	var execT interface{}
 	{ // template results for the tokens that can be forwarded at this step: the stored one and a refreshed one
 		tab := M{}
@@ -915,6 +937,9 @@ func (w *world) observe(rs reqSpec, r *http.Request, clientHdrs [][]string, rec 
 	stepM := M{"op": "req", "now": time.Now().Unix(), "method": rs.method, "path": path, "rawURI": r.URL.RequestURI(), "line": rs.rawURI, "json": strings.Contains(rs.accept, "application/json"),
 		"preflight": rs.method == "OPTIONS" && rs.origin != "", "base": scheme + "://" + host, "host": r.Host, "tls": r.TLS != nil, "qError": query.Get("error"), "qErrDesc": query.Get("error_description"),
 		"qState": w.sym(query.Get("state")), "qCode": query.Get("code"), "hdrs": clientHdrs, "exchange": exA, "refresh": rfA, "exec": execT, "note": rs.note, "b": w.b, "i": w.cur, "obs": obs}
+	if rs.withhold {
+		stepM["withheld"] = true
+	}
 	w.rec(stepM)
 	T.stat("handler.class." + fmt.Sprint(obs["class"]))
 	w.oracles(rs, path, query, obs, rec, d, forwarded, calls, panicked, setCookies, body, ct)
